@@ -363,6 +363,12 @@ func (s *stdTr) boolT(t *Term) *Term {
 		return Or(cs...)
 	case "not":
 		return Not(s.boolT(t.Args[0]))
+	case "ite":
+		if len(t.Args) == 3 && t.Args[1].Sort == SBool {
+			return Ite(s.boolT(t.Args[0]), s.boolT(t.Args[1]), s.boolT(t.Args[2]))
+		}
+	case "=>":
+		return Imp(s.boolT(t.Args[0]), s.boolT(t.Args[1]))
 	case "fp.gt", "fp.geq", "fp.lt", "fp.leq", "fp.eq":
 		a, b := s.fp(t.Args[0]), s.fp(t.Args[1])
 		switch t.Op {
